@@ -265,6 +265,11 @@ impl Sim {
             "tsi": capv(self.k.ticks_since_idle),
             "nwfi": self.k.waiting_for_idle.len(),
             "nvpr": self.k.vkeys_pending_release.len(),
+            // mouse wheel: [vertical, horizontal], each [] or [direction, ticks until the next event] (Kanata.tla K.scroll / K.hscroll)
+            "scr": [
+                self.k.scroll_state.as_ref().map(|s| json!([format!("{:?}", s.direction), s.ticks_until_scroll])).unwrap_or(json!([])),
+                self.k.hscroll_state.as_ref().map(|s| json!([format!("{:?}", s.direction), s.ticks_until_scroll])).unwrap_or(json!([])),
+            ],
             // caps-word: [] or [remaining ticks] (Kanata.tla K.cw)
             "cw": self.k.caps_word.as_ref().map(|c| vec![c.timeout_ticks]).unwrap_or_default(),
             // chords v2 reports idle (no queued input, no active chord); true without defchordsv2 (C01 diagnosis)
